@@ -1605,6 +1605,61 @@ theorem asyncC_answers {σ} (g : Rng σ) (cfg : DevCfg) (r : RegionId) (d : DevR
   obtain ⟨op, hop, rfl⟩ := List.mem_map.mp hev
   exact ⟨abstractOp_evOkC cfg op (hv op hop).1, abstractOp_valid cfg r op (hv op hop).2⟩
 
+
+/-! ### effects of a downlink accepted in a Class A window of an EXTENDED procedure
+
+Class C acceptances before it (frames heard on the RXC parameters between TX and RX1, or between RX1
+and RX2) change neither the configuration nor the channel plan nor the queue the command handling
+starts from: `Effects` holds exactly as for the plain procedure. -/
+
+/-- the acts are Class C acceptances only -/
+def OnlyAccC (acts : List Act) : Prop := ∀ a ∈ acts, ∃ N d, a = .accC N d
+
+theorem acts_onlyAccC (acts : List Act) (ho : OnlyAccC acts) :
+    ∀ (m m' : MacState) (s : Session), m.st = .joined s → Acts m acts m' →
+      ∃ s', m'.st = .joined s' ∧ m'.cfg = m.cfg ∧ m'.region = m.region ∧ s'.pending = s.pending := by
+  induction acts with
+  | nil => intro m m' s hst h; simp only [Acts] at h; subst h; exact ⟨s, hst, rfl, rfl, rfl⟩
+  | cons a rest ih =>
+    intro m m' s hst h
+    obtain ⟨N, d, rfl⟩ := ho a List.mem_cons_self
+    simp only [Acts] at h
+    obtain ⟨s0, hs0, _, h⟩ := h
+    rw [hst] at hs0; cases hs0
+    obtain ⟨s', hst', hc, hr, hp⟩ := ih (fun a ha => ho a (List.mem_cons_of_mem _ ha)) _ m' _ (acceptState_st m s d N (ctxC m s)) h
+    refine ⟨s', hst', ?_, ?_, ?_⟩
+    · rw [hc, (acceptState_cfg m s d N (ctxC m s)).1]; rfl
+    · rw [hr, (acceptState_cfg m s d N (ctxC m s)).2]; rfl
+    · rw [hp, acceptFinish_session_eq]; rfl
+
+/-- **what a downlink accepted in a Class A window of an extended receive procedure did to the
+device** (`Effects`, as for the plain procedure), whatever was accepted on the RXC parameters before
+it: the reference's acts for the procedure are Class C acceptances followed by the Class A acceptance
+of `d` that ends it. -/
+theorem stepC_effects {σ} (g : Rng σ) (m m' : MacState) (rs rs' : σ) (s : Session) (hst : m.st = .joined s)
+    (hl : LastOk s.fcntDown) (cc : Bool) (data : List Nat) (fport : Nat) (conf : Bool) (fault : Option FaultPos)
+    (c1 : List (RxView × Int)) (rx1 : Option (RxView × Int)) (c2 : List (RxView × Int)) (rx2 : Option (RxView × Int))
+    (hv : evOkC (.uplinkC cc data fport conf fault c1 rx1 c2 rx2) = true) (out : OutC)
+    (h : stepC g (m, rs) (.uplinkC cc data fport conf fault c1 rx1 c2 rx2) = .ok ((m', rs'), out))
+    (pre : List Act) (N : Nat) (d : RxData) (snr : Int) (hpre : OnlyAccC pre)
+    (hacc : ∀ so m1 rs1, macSend g m data fport conf rs = .ok (some so, m1, rs1) →
+      (upRefC cc s.fcntDown conf (rxcMp m) fault c1 rx1 c2 rx2 so).acts = pre ++ [.accA N d snr]) :
+    Effects g m rs data fport conf d snr m' := by
+  obtain ⟨so, m1, hsend, _, hst1, hcfg1, _, _, hacts, _⟩ :=
+    stepC_uplinkC_joined g m m' rs rs' s hst hl cc data fport conf fault c1 rx1 c2 rx2 hv out h
+  rw [hacc so m1 rs' hsend] at hacts
+  obtain ⟨m2, h1, h2⟩ := hacts.split
+  obtain ⟨s2, hst2, hc2, hr2, hp2⟩ := acts_onlyAccC pre hpre m1 m2 _ hst1 h1
+  simp only [Acts] at h2
+  obtain ⟨s3, ctx, hs3, _, hc, rfl⟩ := h2
+  rw [hst2] at hs3; cases hs3
+  obtain ⟨as1, as2, cfg1, rg1, mk, ha1, ha2, hp⟩ := accept_answers _ _ _ d snr ctx hc
+  rw [hc2, hcfg1, hr2] at ha1
+  obtain ⟨hcfg', hreg'⟩ := acceptState_cfg m2 s2 d N ctx
+  refine ⟨so, m1, rs', as1, as2, cfg1, rg1, mk, _, hsend, hcfg1, ha1, ?_, acceptState_st _ _ d N ctx, by rw [acceptFinish_session_eq]; exact hp⟩
+  rw [hcfg', hreg']
+  exact ha2
+
 /-! non-vacuity: a Class C device; RXParamSetupReq + DevStatusReq accepted in RX1 AFTER a Class C frame
 was accepted between TX and RX1; in the next procedure another Class C frame is accepted between the
 windows: the sticky RXParamSetupAns is still owed after it -/
@@ -1618,6 +1673,15 @@ def demoHistoryC : List EvC :=
     .uplinkC true [3] 1 false none [] none [] none ]
 
 example : ∀ ev ∈ demoHistoryC, evOkC ev = true ∧ validEvC .EU868 ev = true := by decide
+/-- the hypothesis of `stepC_effects` on the second event of `demoHistoryC`: a Class C acceptance, then
+the Class A acceptance of the frame with the commands -/
+example :
+    (match macSend lcg (macJoinAbp (MacState.init (RegionState.init .EU868) 14 0) 7 1 2) [1] 1 false 1 with
+     | .ok (some so, _, _) =>
+       decide ((upRefC true none false (rxcMp (macJoinAbp (MacState.init (RegionState.init .EU868) 14 0) 7 1 2)) none [dlC 1]
+         (dl 2 [0x05, 0x23, 0xD2, 0xAD, 0x84, 0x06]) [] none so).acts.map (fun a => match a with | .accC N _ => (0, N) | .accA N _ _ => (1, N) | .tmo => (2, 0))
+         = [(0, 1), (1, 2)])
+     | _ => false) = true := by decide +kernel
 example : (runC lcg (MacState.init (RegionState.init .EU868) 14 0, 1) demoHistoryC).toOption.map
       (fun r => (macFields (r.2.map (·.out)), r.2.map (fun o => o.heard.length)))
     = some ([[], [0x05, 7, 0x06, 255, 5], [0x05, 7]], [0, 2, 1, 0]) := by decide +kernel
@@ -1651,3 +1715,4 @@ end C08
 #print axioms C08.stepC_ansRel
 #print axioms C08.historyC_answers
 #print axioms C08.asyncC_answers
+#print axioms C08.stepC_effects
